@@ -269,7 +269,7 @@ class MappingAffine(Mapping):
             raise Exception("Not implemented for the given dimension.")
 
         invDF = self.invDF(X, tind)
-        N = np.empty((self.dim, len(find)))
+        N = np.zeros((self.dim, len(find)))
 
         for itr in range(Nref.shape[0]):
             ix = np.nonzero(t2f[itr, tind] == find)[0].astype(np.int32)
